@@ -30,6 +30,7 @@ type state struct {
 	Fingerprint map[string]string
 	OS, Arch    string
 	MultiPlat   bool
+	AllPlat     bool // the invocation selects all platforms (--all-platforms): not part of the state
 }
 
 func (s state) clone() state {
@@ -119,6 +120,7 @@ func key(t *testing.T, root string, s state) (string, error) {
 	}
 	config.Global.WorkspaceRoot = root
 	config.Global.OS, config.Global.Arch = s.OS, s.Arch
+	config.Global.AllPlatforms = s.AllPlat
 	parsed, err := output.ParseOutputs(s.Outputs)
 	if err != nil {
 		return "", err
@@ -218,7 +220,7 @@ func shuffle(r *rnd, xs []string) []string {
 func pair(r *rnd, a0 state) (state, state, string) {
 	a := a0.clone()
 	b := a.clone()
-	switch r.intn(30) {
+	switch r.intn(33) {
 	case 0:
 		b.Inputs = shuffle(r, a.Inputs)
 		return a, b, "eq:permute-inputs"
@@ -482,6 +484,15 @@ func pair(r *rnd, a0 state) (state, state, string) {
 		b.MultiPlat = true
 		b.Fingerprint["platform"] = a.OS + "/" + a.Arch
 		return a, b, "ne:platform-component-vs-fingerprint-entry"
+	case 29: // the same state keyed by an invocation with and without --all-platforms
+		b.AllPlat = !a.AllPlat
+		return a, b, "eq:all-platforms-flag-of-the-invocation"
+	case 30: // two platforms, both keyed by invocations that select all platforms
+		a.MultiPlat, a.AllPlat = false, true
+		delete(a.Fingerprint, "platform")
+		b = a.clone()
+		b.Arch = "arm64"
+		return a, b, "ne:platform-under-all-platforms"
 	default: // package vs name boundary: //p:qx vs //p/q:x cannot collide textually; use label prefix
 		b.Pkg = a.Pkg + "x"
 		return a, b, "ne:package"
